@@ -145,6 +145,10 @@ def run_circuit(desc, check=True):
         if np.linalg.norm(v) < 1e-9 * scale:
             labels.append('state_annihilated')      # e.g. (1 + H)|psi> = 0: what is left is rounding noise
             break
+        bd = psi.get_bond_dimensions()
+        if max([max(x) if hasattr(x, '__iter__') else x for x in bd.values()] + [1]) > 128:
+            labels.append('bond_dimension_cap')     # apply_gate_ never truncates: repeated gates on one bond multiply its dimension
+            break
     return psi, v, labels, nt
 
 
